@@ -97,6 +97,8 @@ pub fn exec(ctx: &mut Ctx, line: &str) -> String {
         crate::ops::tensor::exec(ctx, op, &mut p)
     } else if op.starts_with("rnd.") {
         crate::ops::random::exec(ctx, op, &mut p)
+    } else if op.starts_with("act.") || op.starts_with("obj.") || op.starts_with("opt.") {
+        crate::ops::scalar::exec(ctx, op, &mut p)
     } else if op == "ping" {
         "ok pong".to_string()
     } else if op == "lit" {
